@@ -69,6 +69,20 @@ impl Col for Rgb888 {
     }
 }
 
+/// `u32 -> colour` adapter that forwards `nth` (so large skips stay O(1) in the harness iterator)
+pub struct MapCol<'a, C>(pub &'a mut dyn Iterator<Item = u32>, pub PhantomData<C>);
+impl<'a, C: Col> Iterator for MapCol<'a, C> {
+    type Item = C;
+    #[inline]
+    fn next(&mut self) -> Option<C> {
+        self.0.next().map(C::from_idx)
+    }
+    #[inline]
+    fn nth(&mut self, n: usize) -> Option<C> {
+        self.0.nth(n).map(C::from_idx)
+    }
+}
+
 /// packed (r,g,b) of colour index `i` in the given format: what the controller must decode
 pub fn packed_of(c666: bool, i: u32) -> u32 {
     if c666 {
@@ -457,13 +471,18 @@ impl Rect {
     pub fn eg(&self) -> Rectangle {
         Rectangle::new(Point::new(self.x, self.y), Size::new(self.w, self.h))
     }
-    /// valid embedded-graphics rectangle: top_left + size representable, fewer than 2^32 points
+    /// valid embedded-graphics rectangle with fewer than 2^32 points: embedded-graphics computes
+    /// `top_left + size` (then - 1) in i32 for every non-empty rectangle, so that sum must be
+    /// representable; rectangles it cannot represent are never generated.
     pub fn valid(&self) -> bool {
         let area = self.w as u64 * self.h as u64;
         if area >= 1 << 32 {
             return false;
         }
-        let fits = |p: i32, s: u32| -> bool { s == 0 || (p as i64 + s as i64 - 1) <= i32::MAX as i64 };
+        if self.w == 0 || self.h == 0 {
+            return true;
+        }
+        let fits = |p: i32, s: u32| -> bool { s <= i32::MAX as u32 && (p as i64 + s as i64) <= i32::MAX as i64 };
         fits(self.x, self.w) && fits(self.y, self.h)
     }
 }
@@ -507,14 +526,14 @@ where
         Display::set_pixel(self, x, y, M::ColorFormat::from_idx(c)).map_err(|e| e.classify())
     }
     fn set_pixels(&mut self, sx: u16, sy: u16, ex: u16, ey: u16, colors: &mut dyn Iterator<Item = u32>) -> Res {
-        Display::set_pixels(self, sx, sy, ex, ey, colors.map(M::ColorFormat::from_idx)).map_err(|e| e.classify())
+        Display::set_pixels(self, sx, sy, ex, ey, MapCol::<M::ColorFormat>(colors, PhantomData)).map_err(|e| e.classify())
     }
     fn draw_iter(&mut self, px: &mut dyn Iterator<Item = (i32, i32, u32)>) -> Res {
         DrawTarget::draw_iter(self, px.map(|(x, y, c)| Pixel(Point::new(x, y), M::ColorFormat::from_idx(c))))
             .map_err(|e| e.classify())
     }
     fn fill_contiguous(&mut self, r: Rect, colors: &mut dyn Iterator<Item = u32>) -> Res {
-        DrawTarget::fill_contiguous(self, &r.eg(), colors.map(M::ColorFormat::from_idx)).map_err(|e| e.classify())
+        DrawTarget::fill_contiguous(self, &r.eg(), MapCol::<M::ColorFormat>(colors, PhantomData)).map_err(|e| e.classify())
     }
     fn fill_solid(&mut self, r: Rect, c: u32) -> Res {
         DrawTarget::fill_solid(self, &r.eg(), M::ColorFormat::from_idx(c)).map_err(|e| e.classify())
